@@ -81,6 +81,12 @@ CLAIMS["C17"] = dict(
     note="Proved (finite regenerated table, decide): operator naming. Oracle only: all other signature clauses (the Convert model is not built).",
     technique="Lean 4 proof over regenerated operator table + python-ast signature oracle",
     design="§5 C17")
+CLAIMS["C13"] = dict(
+    text="Unbounded Lean theorems on the model of transpile_dir/mamba_to_python with abstract per-file stage outcomes, for every project and every prior content of the output directory: all_or_nothing (any lexical/syntax/type/generation/context error gives a non-empty error list and writes nothing), errors_name_their_file, outputs_mirror_files and mirror_layout (exactly the mirrored .py paths are (over)written, every other path untouched). "
+         "The model is tied to lib::transpile_dir by running the real function on scratch directories for generated projects of 1-5 files in nested directories with cross-file use: verdict, files named by diagnostics and the output tree are compared with the model fed with the per-file fault labels. Independence of the file order (all permutations through mamba_to_python), of a populated output directory and of an added unrelated file is decided by the oracle.",
+    note="Proved: partition/write structure. Oracle only: that a file's stage outcome does not depend on file order or unrelated files (context building and checking are not modelled); I/O failures in the middle of the write loop are outside the model.",
+    technique="Lean 4 proof over pipeline model + correspondence on real transpile_dir runs + metamorphic oracle",
+    design="§5 C13")
 NOT_YET = {}
 ALL = ["C%02d" % i for i in range(1, 21)]
 
